@@ -32,6 +32,7 @@ func c08(c *Ctx) {
 	c08adapters(c)
 	c08rangeFunnel(c, pkg)
 	c08nullElements(c, pkg)
+	c08noBypass(c, pkg)
 	if os.Getenv("GZV_MEMO_SCAN") != "" {
 		for _, pk := range c.P.Pkgs {
 			c.memoKeysDetermine("SCAN", strings.TrimPrefix(pk.PkgPath, mod), 0)
